@@ -126,6 +126,11 @@ func visitInstr(fr *frame, instr ssa.Instruction) continuation {
 		// no-op
 
 	case *ssa.UnOp:
+		if instr.Op == token.MUL && fr.p.thr != nil {
+			if addr, ok := fr.get(instr.X).(*value); ok && addr != nil {
+				fr.p.raceAccess(fr, addr, false)
+			}
+		}
 		fr.env[instr] = fr.unop(instr, fr.get(instr.X))
 
 	case *ssa.BinOp:
@@ -190,6 +195,9 @@ func visitInstr(fr *frame, instr ssa.Instruction) continuation {
 		}
 		if addr == nil {
 			panic(runtimePanic("runtime error: invalid memory address or nil pointer dereference"))
+		}
+		if fr.p.thr != nil {
+			fr.p.raceAccess(fr, addr, true)
 		}
 		store(deref(instr.Addr.Type()), addr, fr.get(instr.Val))
 
@@ -257,9 +265,15 @@ func visitInstr(fr *frame, instr ssa.Instruction) continuation {
 		fr.env[instr] = &smap{keyType: instr.Type().Underlying().(*types.Map).Key()}
 
 	case *ssa.Range:
+		if m, ok := fr.get(instr.X).(*smap); ok && m != nil && fr.p.thr != nil {
+			fr.p.raceAccess(fr, m, false)
+		}
 		fr.env[instr] = rangeIter(fr, fr.get(instr.X), instr.X.Type())
 
 	case *ssa.Next:
+		if it, ok := fr.get(instr.Iter).(*mapIter); ok && it.m != nil && fr.p.thr != nil {
+			fr.p.raceAccess(fr, it.m, false)
+		}
 		fr.env[instr] = fr.get(instr.Iter).(iter).next(fr)
 
 	case *ssa.FieldAddr:
@@ -331,6 +345,9 @@ func visitInstr(fr *frame, instr ssa.Instruction) continuation {
 		idx := fr.get(instr.Index)
 		switch x := x.(type) {
 		case *smap:
+			if x != nil && fr.p.thr != nil {
+				fr.p.raceAccess(fr, x, false)
+			}
 			v, ok := x.lookup(fr, idx)
 			if !ok {
 				v = zero(instr.X.Type().Underlying().(*types.Map).Elem())
@@ -351,6 +368,9 @@ func visitInstr(fr *frame, instr ssa.Instruction) continuation {
 		m := fr.get(instr.Map).(*smap)
 		if m == nil {
 			panic(runtimePanic("assignment to entry in nil map"))
+		}
+		if fr.p.thr != nil {
+			fr.p.raceAccess(fr, m, true)
 		}
 		m.insert(fr, fr.get(instr.Key), copyVal(fr.get(instr.Value)))
 
